@@ -412,9 +412,9 @@ impl Property for C14 {
         "RANDOM: directory trees (<= 6 directories to 3 levels, 1-8 source files, each emitting its own marker bytes) with inclusion graphs (forward chains and diamonds, one include in six \
          to an arbitrary file = cycles and self-inclusion, #once on a quarter of the files) whose paths are spelled relative (with the needed ../), root-anchored (leading /), up-to-the-root-and-down, \
          decorated with ./, doubled separators, backslashes, x/../ and /./ insertions; plus hostile spellings aiming at a sentinel outside the project (../, /../, a/../../, ..\\\\, <std>/../../), \
-         <std>/ names inside and outside the built-in library and missing files. One case in five names a second root file on the command line (one assembly: shared #once set, inclusion stack per root). Oracle R-INCL on the in-memory file server: the expected marker sequence, or rejection. One case in ten instead puts the rules (and `#fn` functions) in a file of another directory and writes inclusion functions in instruction operands (direct, through a sub-rule), in productions and in function bodies: each path is relative to the file that contains its text. One case in twelve is \
+         <std>/ names inside and outside the built-in library and missing files. One case in five names a second root file on the command line (one assembly: shared #once set, inclusion stack per root). Oracle R-INCL on the in-memory file server: the expected marker sequence, or rejection. One case in ten instead puts the rules (and `#fn` functions) in a file of another directory and writes inclusion functions in instruction operands (direct, through a sub-rule), in productions, in function bodies and in an argument that a rule substitutes textually into an asm block: each path is relative to the file that contains its text. One case in twelve is \
          also materialised on the real file system in a scratch project directory (with a directory literally named `<std>` and a sentinel file one and two levels above) and assembled by the \
-         real binary with a relative root: exit status and output must match the model and the sentinel's marker must never appear. ENUMERATED: incbin / incbinstr / inchexstr on files of length \
+         real binary with a relative root: exit status and output must match the model and the sentinel's marker must never appear; a third of these runs spell the root `./name` (with a decoy of the hostile target's name inside the project). ENUMERATED: incbin / incbinstr / inchexstr on files of length \
          0..12 x every start 0..14 or absent x every length 0..14, absent or 2^64-1: ranges inside the file give exactly those bytes/digits, ranges past the end are rejected, also for an empty file (empty ranges and start = size are run but not asserted); x digit variants for the text functions: lower-case digits, upper-case hexadecimal digits, one character that is no digit of the radix inside the requested range (must be rejected). Non-trivial = (tree) a `..` or root-anchored spelling with >= 3 files, or a hostile path, (function) an explicit start or length."
             .to_string()
     }
